@@ -5,6 +5,26 @@ sys.path.insert(0, os.path.dirname(os.path.abspath(__file__)))
 import registry
 VERIF = registry.VERIF
 props = [json.loads(l) for l in open(os.path.join(VERIF, "properties.jsonl"))]
+D = "of the whole daemon (real main, epoll loop, transports) in a simulated kernel; fork-per-case, ASan+UBSan, shrunk JSON replays"
+TECH = {
+ "C01": "stateful model-based property testing (rapidcheck) " + D + "; oracle: reference model per step + replica rebuilt from received notifications",
+ "C02": "grammar-based property testing (rapidcheck) of request shapes/ids/batches " + D + "; oracle: reference model of the response discipline",
+ "C03": "stateful model-based property testing (rapidcheck) of routed set/call histories " + D + "; oracle: model of the in-flight table, payload equality, id uniqueness",
+ "C04": "stateful model-based property testing (rapidcheck) over adversarial/colliding paths " + D + "; oracle: reference map vs observer get + fetch-all replica after every step",
+ "C05": "stateful property testing (rapidcheck) of connection ends in every protocol phase " + D + "; oracle: reference model for the other peers + descriptor-hygiene monitor",
+ "C06": "structure-aware hostile-input property testing (rapidcheck) plus coverage-guided fuzzing (libFuzzer, in-process daemon) " + D + "; oracle: sanitizers, witness connection served, probe served",
+ "C07": "stateful property testing (rapidcheck) with injected syscall failures plus coverage-guided fuzzing (libFuzzer) " + D + "; oracle: idle-baseline invariant, clean exit, hygiene monitor, heap cap",
+ "C08": "model-based property testing (rapidcheck) over generated credential files, access declarations and origins " + D + "; oracle: group-intersection model + secret scan of all output",
+ "C09": "metamorphic property testing (rapidcheck): one session under 4 generated delivery schedules must give identical transcripts " + D + "; plus reference model",
+ "C10": "fault-injecting property testing (rapidcheck) of kernel write behaviours " + D + "; oracle: accepted stream is an in-order concatenation of the frames observed at writev",
+ "C11": "fault-injecting stateful property testing (rapidcheck) with faulty peers " + D + "; oracle: fault-aware reference model for healthy peers",
+ "C12": "grammar-based property testing (rapidcheck) of upgrades and frame sequences " + D + "; oracle: RFC 6455 judge (own SHA-1/base64/frame codec) + shared model for both transports",
+ "C13": "mutation-based property testing (rapidcheck): valid upgrade with exactly one generated defect " + D + "; oracle: never 101, connection ends, baseline restored",
+ "C14": "stateful property testing (rapidcheck) with harness-owned clock and generated batch orders (expiry racing reply/disconnect) " + D + "; oracle: deadline model, either race order, sanitizers",
+ "C15": "exhaustive allocation-fault enumeration over rapidcheck-generated scenarios " + D + "; oracle: no crash, at most one response per id, still serving, baseline restored",
+ "C16": "differential property testing (rapidcheck) of generated fetch rules over related paths " + D + "; oracle: independent matcher implementation for get and fetch",
+ "C20": "crash-point and fault enumeration over rapidcheck-generated authenticate/passwd histories " + D + "; oracle: authorisation model + every durable file image loads as exactly old or new",
+}
 checks = []
 for pid, spec in registry.PROPS.items():
     checks.append({
@@ -16,13 +36,15 @@ for pid, spec in registry.PROPS.items():
         "engine": spec.get("engine", "scenario-pbt"),
         "level_claimed": {"category": spec["level"], "text": spec.get("level_text", registry.DEFAULT_LEVEL_TEXT), "design_ref": "DESIGN.md section 3, " + pid},
         "level_note": spec.get("level_note", registry.DEFAULT_LEVEL_NOTE),
-        "technique": spec.get("technique", "stateful property-based testing (rapidcheck) of the whole daemon in a simulated kernel against a reference model; fork-per-case, ASan+UBSan"),
+        "technique": spec.get("technique", TECH.get(pid, "stateful property-based testing (rapidcheck) of the whole daemon in a simulated kernel against a reference model; fork-per-case, ASan+UBSan")),
     })
 engines = [
     {"name": "scenario-pbt", "path": "fw/", "serves_properties": [p for p, s in registry.PROPS.items() if s.get("engine", "scenario-pbt") == "scenario-pbt"],
      "kind_free_text": "rapidcheck-generated scenarios (operation sequences, schedules, faults) executed fork-per-case against the whole daemon linked to a simulated kernel, judged by a reference model and invariants; failures shrink to a JSON replay"},
     {"name": "module-pbt", "path": "modules/", "serves_properties": [p for p, s in registry.PROPS.items() if s.get("engine") == "module-pbt"],
-     "kind_free_text": "exhaustive enumeration + rapidcheck + libFuzzer on the real module sources with an independent reference"},
+     "kind_free_text": "exhaustive enumeration + rapidcheck on the real module sources with an independent reference"},
+    {"name": "daemon-fuzz", "path": "fuzz/", "serves_properties": [p for p, s in registry.PROPS.items() if s.get("fuzz")],
+     "kind_free_text": "coverage-guided libFuzzer target: the whole daemon in the simulated kernel, in-process, bytes decoded structure-aware into a scenario; semantic oracle inside the target; crash artifacts become scenario replays"},
 ]
 m = {
     "version": 1,
@@ -33,7 +55,7 @@ m = {
               "source_commits": [], "add_only": True},
     "engines": [e for e in engines if e["serves_properties"]],
     "checks": checks,
-    "not_applicable": [{"property_id": p["id"], "reason": registry.NOT_APPLICABLE.get(p["id"], "check not built yet in this session (work in progress, see DESIGN.md section 9)")}
+    "not_applicable": [{"property_id": p["id"], "reason": registry.NOT_APPLICABLE.get(p["id"], "not claimed")}
                        for p in props if p["id"] not in registry.PROPS],
     "notes": "See DESIGN.md. KNOWN_FINDINGS.jsonl lists open findings (JSON lines) and repaired defects ('fixed:' lines). Replays: replays/<id>/*.json.",
 }
